@@ -500,10 +500,10 @@ Proof.
             | Err x => if is_pe (xk x) || is_index (xk x) then k (inr (loc, RPR acc)) else foe o
             | _ => Ret Div end)).
   { intros [l r|x|] Ho; try ret. destruct (is_pe (xk x) || is_index (xk x)); [apply S_ok; exact Hl|apply Hfoe; assumption]. }
-  apply S_check_ender; [exact Hn|exact Hl|]. intros [o|] Ho; [apply Hstop; assumption|].
   apply S_skip_ignorables; [exact Hi|exact Hl| |].
   - intros x Hx. apply (Hstop (Err x)). exact Hx.
-  - intros l Hbl. unfold call. callc Hb Hbl.
+  - intros l Hbl. apply S_check_ender; [exact Hn|exact Hbl|]. intros [o|] Ho; [apply Hstop; assumption|].
+    unfold call. callc Hb Hbl.
     + match goal with |- context [Nat.eqb ?a loc] => destruct (Nat.eqb a loc) end; [ret|apply IH; assumption].
     + apply (Hstop (Err x)). assumption.
     + ret.
